@@ -143,6 +143,15 @@ example : setArrayItems [0x9f, 0xa0, 0xb8, 0x01, 0x00, 0x00, 0xff] 2 = some [(1,
 example : setArrayItems [0x9f, 0xa0, 0xb8, 0x01, 0x00, 0x00, 0xff] 3 = none := by decide
 example : setArrayItems [0x98, 0x02, 0xa0, 0xa0] 1 = none := by decide
 
+/-- Regenerated: among the output types, only the Dijkstra wrapper returns its stored bytes today;
+    the legacy output types it can wrap, and every earlier era's output type, re-encode (recorded
+    class `reencode-out`, decided per failing item from its concrete type). -/
+theorem output_types_today :
+    (["byron.ByronTransactionOutput", "shelley.ShelleyTransactionOutput", "mary.MaryTransactionOutput",
+      "alonzo.AlonzoTransactionOutput", "babbage.BabbageTransactionOutput",
+      "dijkstra.DijkstraTransactionOutput"].filter (GV.Model.PreserveTypes.preserves 4)) =
+    ["dijkstra.DijkstraTransactionOutput"] := by decide
+
 /-- Regenerated too: which transaction-body and witness-set types preserve bytes today (only
     Mary bodies and Babbage witness sets) — the complement is the recorded finding classes
     `reencode-body` / `reencode-wit`; a type gaining the stored-bytes MarshalCBOR changes this
